@@ -18,6 +18,8 @@ func init() {
 }
 
 func c15(c *Ctx) {
+	c.EdgeReturns("restart/wal-of-a-dropped-database-is-skipped", "litefs.(*DB).CheckpointNoLock", GP("os.IsNotExist(litefs.OS.OpenFile(p0.os, @@DatabasePath@@)#1)", true), "nil", 1,
+		"the start-up checkpoint skips a WAL whose database file does not exist (the state a connection opened before a drop leaves behind)", "the node could not start again and the name could not be re-created; Open re-applies the drop afterwards, which removes the stray WAL")
 	c.NoPathFromEdge("restart/missing-database-file-keeps-the-log", "litefs.(*DB).initFromDatabaseHeader", GP("os.IsNotExist(litefs.OS.Open(p0.os, @@DatabasePath@@)#1)", true), c.P.PlainCalls("litefs.(*DB).clean"), 1,
 		"a missing database file (the state of a dropped database) never leads to clean(), which removes the transaction log", "every restart of a node holding a dropped database would reset it to position 0: absent replicas keep the database, a re-created one starts at TXID 1")
 	c.Guarded("restart/clean-only-for-invalid-header", "litefs.(*DB).initFromDatabaseHeader", c.P.PlainCalls("litefs.(*DB).clean"), gs(G(`^\(litefs\.errInvalidDatabaseHeader == litefs\.readSQLiteDatabaseHeader\(.*\)#2\)$`, true)), 1,
